@@ -46,6 +46,7 @@ type c10In struct {
 	Mgr        int       `json:"mgr"`          // the manager runs on h<Mgr> (0 = h1)
 	RemoveAfter int      `json:"remove_after"` // after the first pass h<RemoveAfter> is removed from the registry (0 = none)
 	Workload   bool      `json:"workload"`     // the master keeps committing
+	Detach     bool      `json:"detach,omitempty"` // the removed host is also detached by the operator: replication stopped, made writable
 	Pulse      bool      `json:"pulse,omitempty"` // one more transaction reaches a replicating cascade replica just before its STOP REPLICA takes effect
 }
 
@@ -305,6 +306,17 @@ func c10Run(in c10In) c10Out {
 			}
 			out.Hosts = nh
 			out.Removed = h
+			if in.Detach {
+				// decommissioning: the operator stops replication on the host and opens it for writes; it is no longer mysync's
+				w.Mu.Lock()
+				if n := w.Nodes[h]; n != nil {
+					n.RO, n.SuperRO = false, false
+					if n.Chan != nil {
+						n.Chan.IO, n.Chan.SQL = false, false
+					}
+				}
+				w.Mu.Unlock()
+			}
 		}
 		time.Sleep(time.Duration(in.Gap) * time.Second)
 	}
@@ -488,6 +500,23 @@ func c10Drive(t *testing.T, o *vk.Out, m *vk.Meta, monitor func(*vk.Meta, c10In,
 		var in c10In
 		if json.Unmarshal(raw, &in) == nil {
 			add(in, run(in))
+		}
+	}
+	// membership changes between passes, always: a host (also the manager's own) leaves the registry while it still
+	// needs repair - from then on it must not be touched
+	for _, mgr := range []int{0, 2, 3} {
+		for _, rem := range []int{2, 3} {
+			for _, st := range []c10Node{{RO: false, Source: "h1", Threads: "running", SemiSync: "none", Exec: "1-100"},
+				{RO: true, Source: "h1", Threads: "stopped", SemiSync: "none", Exec: "1-100"},
+				{RO: true, Source: "h3", Threads: "running", SemiSync: "none", Exec: "1-100"}} {
+				in := c10In{Passes: 3, Gap: 5, MaxAttempts: 3, Mgr: mgr, RemoveAfter: rem, Detach: true,
+					Nodes: []c10Node{{RO: false, Source: "", Threads: "", SemiSync: "master", Exec: "1-100"},
+						{RO: true, Source: "h1", Threads: "running", SemiSync: "none", Exec: "1-100"},
+						{RO: true, Source: "h1", Threads: "running", SemiSync: "none", Exec: "1-100"}}}
+				in.Nodes[rem-1] = st
+				add(in, run(in))
+				m.Count("host_leaves_registry")
+			}
 		}
 	}
 	for i := 0; i < n; i++ {
